@@ -56,7 +56,7 @@ def run(ctx):
     ok = len(ops) == 1 and ops[0][1][1:] == ["context", "kwargs"]
     if ok:
         pdef = [n for n in ast.walk(uc) if isinstance(n, ast.Assign) and src(n.targets[0]) == ops[0][1][0]]
-        ok = len(pdef) == 1 and "self._task_options_override.get('_context_override'" in src(pdef[0].value)
+        ok = len(pdef) == 1 and "'_context_override'" in src(pdef[0].value) and src(pdef[0].value).startswith("self.")  # how it is read is C26.4's obligation
         c = ops[0][0]
         par = tm.parent.get(c)
         ok = ok and isinstance(par, ast.keyword) and par.arg == "_context_override"
@@ -133,6 +133,28 @@ def run(ctx):
     ea = sm.func("Scheduler._evaluate_apply")
     ok = "JobEnv(parent_job, job.get_context())" in src(ea)
     r4.check(ok, f"{sm.rel}:Scheduler._evaluate_apply:default-args-context", "default arguments (e.g. get_context defaults) are not evaluated under the new job's context", sm.rel, ea.lineno)
+
+    # update_context writes the merged override through self.options(...), a method PartialTask overrides to delegate to the wrapped task.
+    # The previous override must be read through a method that is overridden by the same subclasses; reading the object's own
+    # `_task_options_override` dict bypasses the delegation (a PartialTask's own dict is empty) and drops earlier overrides.
+    tmod = repo.mod("redun/task.py")
+    uc = tmod.func("Task.update_context")
+    tcls = tmod.cls("Task")
+    overriders = {c.name: {st.name for st in c.body if isinstance(st, FuncNode)} for _, c in repo.subclasses(tcls, strict=True)}
+    writers = [c for c in calls_in(uc) if isinstance(c.func, ast.Attribute) and src(c.func.value) == "self" and c.func.attr == "options"]
+    if not writers:
+        raise AnalysisError("Task.update_context: self.options(...) not found", "Task.update_context")
+    direct = [n for n in ast.walk(uc) if isinstance(n, ast.Attribute) and src(n) == "self._task_options_override" and isinstance(n.ctx, ast.Load)]
+    readers = [c for c in calls_in(uc) if isinstance(c.func, ast.Attribute) and src(c.func.value) == "self" and c.func.attr in ("get_task_option", "get_task_options") and any("_context_override" in src(a) for a in c.args)]
+    consistent = all(all(rd.func.attr in meths for rd in readers) for name, meths in overriders.items() if "options" in meths)
+    r4.check(
+        bool(readers) and not direct and consistent,
+        f"{tmod.rel}:Task.update_context:previous-override",
+        "update_context reads the previous context override from self._task_options_override (or through a method that subclasses overriding options() do not override): on a "
+        "PartialTask, whose options live in the wrapped task, earlier update_context overrides are lost",
+        tmod.rel,
+        uc.lineno,
+    )
 
     # ---- C26.5 -----------------------------------------------------------
     r5 = ctx.rule("C26.5", "an evaluation environment with its own context is its own de-duplication scope", floor=3)
